@@ -28,7 +28,7 @@ func outPayload(client bool, msg interface{}, payload []byte, t time.Time) *stat
 
 func inPayload(client bool, msg interface{}, payload []byte, t time.Time) *stats.InPayload {
 	return &stats.InPayload{
-		Client:     true,
+		Client:     client,
 		RecvTime:   t,
 		Payload:    msg,
 		Length:     len(payload),
